@@ -151,12 +151,15 @@ def _case_worker_inner(case):
         chk_index = []
         if case.get("attr"):
             seen_cmd = {}
+            excl_at_cands = {}       # skip node id -> exclusion list in effect when its candidates were computed
             for idx, (_, _, meta) in enumerate(real):
                 prev = {it["id"]: it for it in ((real[idx - 1][2] or {}).get("attr", []) if idx > 0 else [])}
+                cur_ids = {it["id"] for it in (meta or {}).get("attr", [])}
+                for k_ in [k_ for k_ in excl_at_cands if k_ not in cur_ids]:
+                    del excl_at_cands[k_]           # caches were discarded
                 for item in (meta or {}).get("attr", []):
                     extra = []
-                    if item["skip"] and "seeds" in item and "seeds" not in prev.get(item["id"], {}) and all("*" not in x for x in item["seeds"]):
-                        # the documented exclusion rule of skip nodes, evaluated on the state before this op
+                    def exclusions():
                         pns, _ = parse_dump(real[idx - 1][1])
                         excl = []
                         for j, other in enumerate(pns):
@@ -167,6 +170,14 @@ def _case_worker_inner(case):
                                 x = _intersect_s(item["space"], other["space"])
                                 if x is not None:
                                     excl.append(x)
+                        return excl
+                    if item["skip"] and "cands" in item and "cands" not in prev.get(item["id"], {}) and idx > 0:
+                        excl_at_cands[item["id"]] = exclusions()
+                    if item["skip"] and "seeds" in item and "seeds" not in prev.get(item["id"], {}) and all("*" not in x for x in item["seeds"]) and idx > 0:
+                        # the documented exclusion rule of skip nodes, as of the moment the candidates were computed
+                        excl = excl_at_cands.get(item["id"])
+                        if excl is None:
+                            excl = exclusions()
                         av = ";".join(item["motifs"] + excl) or "-"
                         extra.append(("skiprule", f"chk seeds {item['space']} {av} {','.join(item['seeds']) or '-'}"))
                     for kind, cmd in attr_cmds(item) + extra:
